@@ -274,6 +274,20 @@ func (w *kworld) doBatch(task string, n int, ring *gmsl.KeyRing, nfetch int) {
 	rec := &callRec{task: task, n: n, start: now}
 	ctx := context.WithValue(sim.WithTask(context.Background(), task), recKey{}, rec)
 	w.r.Logf("t=%v %s batch#%d: %d requests", w.r.Now(), task, n, nreq)
+	// the caller may give up while key fetches are in flight (its request was
+	// cancelled, its deadline passed): the call must still wind down cleanly
+	if w.latency && t.Chance(100) {
+		cctx, cancel := context.WithCancel(ctx)
+		d := time.Duration(t.Range(1, 2500))*time.Millisecond + 61*time.Microsecond
+		tm := time.AfterFunc(d, func() {
+			w.r.Fault("ctx_cancel")
+			cancel()
+		})
+		defer tm.Stop()
+		defer cancel()
+		ctx = cctx
+		rec.cancellable = true
+	}
 	res, err := ring.VerifyJSONs(ctx, reqs)
 	end := time.Now()
 	w.r.Op()
